@@ -3,15 +3,15 @@
 From TungModel Require Import Base Coding Mask Header Frame Utf8 World Message Codec Protocol.
 From Coq Require Import Arith Lia ZifyBool ZifyNat ZifyN.
 
-Arguments N.add : simpl never.
-Arguments N.sub : simpl never.
-Arguments N.mul : simpl never.
-Arguments N.min : simpl never.
-Arguments N.ltb : simpl never.
-Arguments N.leb : simpl never.
-Arguments N.eqb : simpl never.
-Arguments N.of_nat : simpl never.
-Arguments N.to_nat : simpl never.
+#[local] Arguments N.add : simpl never.
+#[local] Arguments N.sub : simpl never.
+#[local] Arguments N.mul : simpl never.
+#[local] Arguments N.min : simpl never.
+#[local] Arguments N.ltb : simpl never.
+#[local] Arguments N.leb : simpl never.
+#[local] Arguments N.eqb : simpl never.
+#[local] Arguments N.of_nat : simpl never.
+#[local] Arguments N.to_nat : simpl never.
 
 Ltac splits := repeat match goal with |- _ /\ _ => split end.
 
